@@ -126,6 +126,18 @@ func (o *Out) Line(c, impl string) {
 	o.n++
 }
 
+// Pending records, durably, which scenario is about to run ("?? desc"): if the implementation
+// (or the harness) crashes the process before the scenario's case line is written, the check
+// reports that scenario as the failing input. The line is ignored otherwise.
+func (o *Out) Pending(desc string) {
+	o.mu.Lock()
+	defer o.mu.Unlock()
+	o.w.WriteString("?? ")
+	o.w.WriteString(strings.ReplaceAll(desc, "\n", " "))
+	o.w.WriteByte('\n')
+	_ = o.w.Flush()
+}
+
 // Flush pushes buffered lines to the file, so that they survive a crash of the process (the
 // virtual-time scenario runners call it after every scenario).
 func (o *Out) Flush() {
